@@ -158,6 +158,10 @@ def lnlike(c):
     for k in range(4):
         spec = spec + (-0.5 * c.log(2 * c.pi) - c.log(sig[k]) - 0.5 * ((fvals[k] - dvals[k]) / sig[k]) ** 2)
     c.ensures("gaussian-log-density", c.eq(got, spec, tol=1e-6))
+    # pixels are matched by their coordinates, not by their position in memory: the same image stored with its axes in another order
+    # has the same likelihood
+    stored_otherwise = data.transpose(*[d for d in ('y', 'x', 'z') if d in data.dims])
+    c.ensures("axis-order-of-the-stored-image-irrelevant", c.eq(c.call(model.lnlike, vals, stored_otherwise), got, tol=1e-6))
     c.canary("missing-normalisation", c.eq(got, sum(-0.5 * ((fvals[k] - dvals[k]) / sig[k]) ** 2 for k in range(4))))
 
 
